@@ -28,9 +28,9 @@ def nontrivial(case):
 def run(ctx):
     quick = ctx["tier"] == "quick"
     rs = []
-    rs.append(codec.run_simple("C09", ctx, "xform", ["--count", "1200" if quick else "40000", "--maxn", "24"],
+    rs.append(codec.run_simple("C09", ctx, "xform", ["--count", "1200" if quick else "25000", "--maxn", "24"],
                                ORACLE, CORR, nontrivial=nontrivial, name="xform_random"))
-    rs.append(codec.run_simple("C09", ctx, "xform", ["--count", "150" if quick else "4000", "--maxn", "90"],
+    rs.append(codec.run_simple("C09", ctx, "xform", ["--count", "150" if quick else "2500", "--maxn", "90"],
                                ORACLE, CORR, nontrivial=nontrivial, seed_offset=7, name="xform_large"))
     if not quick:
         rs.append(codec.run_simple("C09", ctx, "xform", ["--mode", "exhaustive"], ORACLE, CORR,
